@@ -8,14 +8,15 @@ import (
 
 // Options bound an exploration.
 type Options struct {
-	Bound        int       // deviation bound (preemptions + early expiries); free choices are always expanded
-	MaxSteps     int       // per-execution horizon
-	MaxExecs     int64     // cap on executions (0 = none)
-	Deadline     time.Time // real-time cap (zero = none); hitting it yields Exhaustive=false, never a verdict
-	NoCache      bool      // disable happens-before caching (cross-validation)
-	NoEarlyClock bool      // timers never overtake runnable threads
-	BoundAll     bool      // every departure from the default scheduler is a deviation (see sched.BoundAll)
-	Trace        bool
+	Bound         int       // deviation bound (preemptions + early expiries); free choices are always expanded
+	MaxSteps      int       // per-execution horizon
+	MaxExecs      int64     // cap on executions (0 = none)
+	Deadline      time.Time // real-time cap (zero = none); hitting it yields Exhaustive=false, never a verdict
+	NoCache       bool      // disable happens-before caching (cross-validation)
+	NoEarlyClock  bool      // timers never overtake runnable threads
+	BoundAll      bool      // every departure from the default scheduler is a deviation (see sched.BoundAll)
+	HorizonClause string    // if set, hitting the step horizon is a violation of this clause (termination properties), not an engine problem
+	Trace         bool
 }
 
 // Failure is an oracle verdict on one execution.
